@@ -257,6 +257,17 @@ class InterfaceLDM4:
             subscribe_data_consumer, callback
         )
 
+        # The data consumer may have deregistered between the validation and the storing of the
+        # subscription; a deregistration ends the subscriptions it finds, so this one is withdrawn.
+        if not self.is_valid_its_aid(subscribe_data_consumer.application_id):
+            self.ldm_service.delete_subscription(subscription_id)
+            return SubscribeDataObjectsResp(
+                subscribe_data_consumer.application_id,
+                0,
+                SubscribeDataobjectsResult.INVALID_ITSA_ID,
+                "Invalid ITS-AID",
+            )
+
         return SubscribeDataObjectsResp(
             subscribe_data_consumer.application_id,
             subscription_id,
